@@ -7,7 +7,7 @@ PLAN = {
     'C03': ['harness.fe_typeargs', 'harness.fe_defaults', 'harness.fe_examples', 'harness.fe_docrefs', 'harness.fe_attrs', 'harness.fe_names', 'harness.fe_structure', 'harness.fe_rules', 'harness.c03_units', 'harness.c03_text', 'harness.c11_layout'],
     'C10': ['harness.fe_defaults', 'harness.fe_examples', 'harness.c10_emit'],
     'C04': ['harness.c04_roundtrip'],
-    'C05': ['harness.c04_roundtrip'],
+    'C05': ['harness.c04_roundtrip', 'harness.c05_names'],
     'C06': ['harness.c06_decoder'],
     'C07': ['harness.c07_evolution'],
     'C08': ['harness.c08_validators', 'harness.c08_generated'],
@@ -23,6 +23,7 @@ FIXTURE_FAILURE_IS_VIOLATION = ('C01', 'C03', 'C14')
 
 NEEDS_FIXTURES = {
     'harness.c04_roundtrip': ('shapes',),
+    'harness.c05_names': ('names',),
     'harness.c06_decoder': ('shapes',),
     'harness.c07_evolution': ('evolution',),
     'harness.c08_generated': ('shapes',),
